@@ -174,7 +174,7 @@ class MultiGeoLineString(MultiShapeBase, LineLikeMixin, SimpleShapeMixin):
 
         lines = []
         for linear_ring in _RE_LINEAR_RING.findall(wkt_str):
-            coords = cls._parse_wkt_linear_ring(wkt_str, linear_ring)
+            coords = cls._parse_wkt_linear_ring(wkt_str, linear_ring, min_points=2)
             lines.append(GeoLineString(coords))
 
         return MultiGeoLineString(
@@ -618,12 +618,14 @@ class MultiGeoPolygon(MultiShapeBase, PolygonLikeMixin, SimpleShapeMixin):
         shapes = []
         for shape in _RE_LINEAR_RINGS.findall(wkt_str):
             linear_rings = _RE_LINEAR_RING.findall(shape)
-            coords = cls._parse_wkt_linear_ring(wkt_str, linear_rings[0])
+            coords = cls._parse_wkt_linear_ring(wkt_str, linear_rings[0], closed=True)
 
             holes = []
             if len(linear_rings) > 1:
                 for hole in linear_rings[1:]:
-                    holes.append(GeoPolygon(cls._parse_wkt_linear_ring(wkt_str, hole)))
+                    holes.append(
+                        GeoPolygon(cls._parse_wkt_linear_ring(wkt_str, hole, closed=True))
+                    )
 
             shapes.append(GeoPolygon(coords, holes=holes or None))
 
